@@ -133,10 +133,15 @@ def main():
                 try:
                     with contextlib.redirect_stdout(buf):
                         fn(h)
+                except ImportError as e:
+                    # the test names a function / class of the library that the current source no longer has under that
+                    # name (rename, move): the bounded test cannot be mapped onto the code -> skipped, reported as undecided
+                    out.setdefault('skipped', []).append(dict(test=full, reason='HARNESS-MAPPING %s' % e))
                 except Exception:
                     out['crashed'] = 'exception in native test %s:\n%s' % (full, traceback.format_exc()[-2500:])
     except Exception:
         out['crashed'] = traceback.format_exc()[-3000:]
+    out.setdefault('skipped', [])
     out.update(cases=h.cases, distinct=len(h.distinct), failures=h.failures,
                tests=[dict(test=k, cases=v) for k, v in sorted(h.tests.items())],
                bound='random inputs, seed=%s, tier=%s; sizes stated per test in the contract file' % (seed, a.tier))
